@@ -25,7 +25,7 @@ type c04Case struct {
 	Points  []jpt      `json:"points,omitempty"` // only when small
 }
 
-var c04Layouts = []string{"uniform", "lattice-dup", "horizontal", "vertical", "all-equal", "clustered", "circle", "huge", "diagonal", "zigzag-wide"}
+var c04Layouts = []string{"uniform", "lattice-dup", "horizontal", "vertical", "all-equal", "clustered", "circle", "huge", "diagonal", "zigzag-wide", "huge-onesided"}
 
 func c04Points(layout string, n int, r *rand.Rand) []geometry.Point {
 	pts := make([]geometry.Point, n)
@@ -53,6 +53,8 @@ func c04Points(layout string, n int, r *rand.Rand) []geometry.Point {
 			x, y = 100*math.Cos(th), 50*math.Sin(th)
 		case "huge":
 			x, y = (r.Float64()*2-1)*8e307, (r.Float64()*2-1)*8e307
+		case "huge-onesided": // same-signed ordinates near the top of the range: Min+Max overflows (seeded change C04-m)
+			x, y = 1e308+r.Float64()*7e307, -1e308-r.Float64()*7e307
 		case "diagonal":
 			x = float64(i)
 			y = float64(i)
@@ -261,6 +263,9 @@ func c04One(c *mon.Ctx, layout string, n int, closed bool, genSeed int64, nq int
 		if layout == "huge" {
 			dx, dy = 1e292, -1e292
 		}
+		if layout == "huge-onesided" {
+			dx, dy = -1e292, 1e292 // towards the origin: moved ordinates stay finite
+		}
 		moved := make([]geometry.Point, len(pts))
 		for i, p := range pts {
 			moved[i] = geometry.Point{X: p.X + dx, Y: p.Y + dy}
@@ -403,7 +408,7 @@ func c04Run(c *mon.Ctx) {
 func init() {
 	mon.Register(&mon.Prop{
 		ID:          "C04",
-		Rule:        "series of sizes {0..17, 31-34, 63-66, 255-258, 1000, 5000, 65535-65538, 70000} x 10 layouts (uniform, duplicate lattice, horizontal, vertical, all-equal, clustered with outliers, circle, +-8e307, diagonal, wide zigzag) x open/closed x {none, R-tree, quadtree} x MinPoints {1, n, n+1, 64} x query rectangles (infinite, horizontal/vertical strips through a vertex, degenerate at a vertex, quadrant midlines, vertex-spanned, disjoint, corner-touching, small windows) x stop position {1,2,3,last}; plus oracle-free comparison of predicates and of Move()d shapes against index-free shapes. Non-trivial = distinct (series, query) whose expected result is a non-empty proper subset of the segments.",
+		Rule:        "series of sizes {0..17, 31-34, 63-66, 255-258, 1000, 5000, 65535-65538, 70000} x 11 layouts (uniform, duplicate lattice, horizontal, vertical, all-equal, clustered with outliers, circle, +-8e307, diagonal, wide zigzag, same-signed 1e308..1.7e308) x open/closed x {none, R-tree, quadtree} x MinPoints {1, n, n+1, 64} x query rectangles (infinite, horizontal/vertical strips through a vertex, degenerate at a vertex, quadrant midlines, vertex-spanned, disjoint, corner-touching, small windows) x stop position {1,2,3,last}; plus oracle-free comparison of predicates and of Move()d shapes against index-free shapes. Non-trivial = distinct (series, query) whose expected result is a non-empty proper subset of the segments.",
 		Assumptions: []string{"oracle: brute force over NumSegments/SegmentAt of the index-free series with the harness' own closed-box test", "the index bytes are not decoded: a layout change that keeps Search correct must not alarm"},
 		Run:         c04Run,
 		MustSee:     []string{"indexed_RTree", "indexed_QuadTree", "unindexed", "indexed_over_65536", "early_stops", "searches_with_hits", "predicate_comparisons", "series_big", "moved_searches"},
